@@ -10,6 +10,7 @@
 -/
 import AgeModel.Extracted.Panics
 import AgeModel.Extracted.CallOrder
+import Proofs.GoTieScrypt
 namespace AgeModel
 namespace Tie.C14
 
@@ -30,6 +31,23 @@ theorem panic_sites : Extracted.panicSites.map (fun s => (s.1, s.2.1)) = [
 /-- in the scrypt stanza unwrap: syntax check, Atoi and the comparison with the
     configured maximum all precede the only scrypt.Key call -/
 theorem kdf_after_checks : Extracted.scryptChecksPrecedeKdf = true := by decide
+
+
+/-! ## The code itself (DESIGN.md §5.3): the passphrase identity never performs key-derivation
+    work its maximum does not allow — `(*ScryptIdentity).unwrap`, TRANSLATED from scrypt.go on every
+    run, handed a `scrypt.Key` that faults when called, still returns normally whenever the model
+    derives no key; and when it derives one the cost is `2^logN` with `logN ≤ maxWF`. -/
+
+theorem scrypt_unwrap_no_kdf (P : Prims) (E : GoTie.ScryptEnv P) (pw : Bytes) (maxWF : Nat) (s : Format.Stanza)
+    (h : (unwrapScrypt P pw maxWF s).2 = []) :
+    ∃ r, Extracted.age_ScryptIdentity_unwrap E.D (fun _ _ _ _ _ _ => .error (.panic 99)) E.A ⟨pw, Int.ofNat maxWF⟩
+        (GoTie.toGoStanza s) = .ok r ∧
+      GoTie.resClass r = (unwrapScrypt P pw maxWF s).1 :=
+  GoTie.scrypt_unwrap_no_kdf P E pw maxWF s h
+
+theorem scrypt_unwrap_kdf_bounded (P : Prims) (E : GoTie.ScryptEnv P) (pw : Bytes) (maxWF : Nat) (s : Format.Stanza)
+    (logN : Nat) (h : (unwrapScrypt P pw maxWF s).2 = [logN]) : logN ≤ maxWF :=
+  (GoTie.scrypt_unwrap_kdf_args P E pw maxWF s logN h).1
 
 end Tie.C14
 end AgeModel
